@@ -16,6 +16,7 @@ package main
 import (
 	"archive/tar"
 	"fmt"
+	"os"
 	"sort"
 	"strings"
 
@@ -535,7 +536,10 @@ func compareDumps(mode, an, bn string, a, b *Dump, f *facts) *cmpCtx {
 			for _, k := range ks {
 				x, y := ra[k], rb[k]
 				if x.Err == "error" && y.Err == "error" {
-					c.obs["readat_fails_in_both_stores(agreement, not judged): "+kind]++
+					c.obs["readat_fails_on_both_sides(agreement, not judged): "+c.mode+":"+kind]++
+					if os.Getenv("VERIF_C05_VERBOSE") != "" {
+						fmt.Fprintf(os.Stderr, "both fail: %s %s | %s | %s\n", p, k, x.ErrText, y.ErrText)
+					}
 				}
 				if (x.Err == "error") != (y.Err == "error") {
 					side, et := an, x.ErrText
